@@ -182,6 +182,10 @@ def main():
         from concurrent.futures import ThreadPoolExecutor
         seeds = sys.argv[2].split(",")
         names = [n for n in sorted(os.listdir(SEEDED)) if os.path.exists(os.path.join(SEEDED, n, "meta.json"))]
+        # VERIF_MATRIX_PROPS=C01,C06 restricts the matrix to the changes of some properties
+        only = [p for p in os.environ.get("VERIF_MATRIX_PROPS", "").split(",") if p]
+        if only:
+            names = [n for n in names if n.split("-")[0] in only]
         jobs = [(n, sd) for n in names for sd in seeds]
 
         def one(job):
@@ -210,7 +214,12 @@ def main():
                 res.setdefault(n, {})[sd] = det
                 print(n, "seed", sd, "detected" if det else "MISSED rc=%s" % rc, flush=True)
         sh("git worktree prune", "/repo")
-        json.dump(res, open(os.path.join(ROOT, "seeded", "matrix.json"), "w"), indent=1, sort_keys=True)
+        mpath = os.path.join(ROOT, "seeded", "matrix.json")
+        stored = res
+        if only and os.path.exists(mpath):
+            stored = json.load(open(mpath))
+            stored.update(res)
+        json.dump(stored, open(mpath, "w"), indent=1, sort_keys=True)
         missed = [(n, sd) for n, r in res.items() for sd, d in r.items() if not d]
         print("missed:", missed)
     elif sys.argv[1] == "runall":
